@@ -6,6 +6,7 @@ _BY_PROP = {
     'C09': ('fft', 'FftScenario'),
     'C10': ('purity', 'PurityScenario'),
     'C13': ('spectrum_arith', 'SpectrumArithScenario'),
+    'C18': ('stochastic', 'StochasticScenario'),
     'C15': ('spectrum_edit', 'SpectrumEditScenario'),
 }
 _CACHE = {}
